@@ -1078,7 +1078,7 @@ impl Modeled for IdxEnum {
 
 /// A user-defined wrapper that relies on the PROVIDED `WrapperTypeDecode::decode_wrapped`
 /// (`descend_ref`, decode the wrapped type, `ascend_ref`, `into`) and on `WrapperTypeEncode`:
-/// stored inline. To the model it is a holder without a heap announcement: `box 0 T`.
+/// stored inline. To the model: `wrap T` (a nesting level, no heap announcement).
 #[derive(PartialEq, Eq, Debug, Clone)]
 pub struct UserWrap<T>(pub T);
 impl<T> From<T> for UserWrap<T> {
@@ -1099,7 +1099,7 @@ impl<T> parity_scale_codec::WrapperTypeDecode for UserWrap<T> {
 impl<T: DecodeWithMemTracking> DecodeWithMemTracking for UserWrap<T> {}
 impl<T: Modeled> Modeled for UserWrap<T> {
 	fn ty(d: usize) -> String {
-		format!("box 0 {}", T::ty(d))
+		format!("wrap {}", T::ty(d))
 	}
 	fn val(&self, out: &mut String, c: bool) {
 		self.0.val(out, c)
@@ -1141,7 +1141,7 @@ impl Modeled for UNode {
 		if d == 0 {
 			"enum 0".into()
 		} else {
-			format!("tup 1 opt box 0 {}", UNode::ty(d - 1))
+			format!("tup 1 opt wrap {}", UNode::ty(d - 1))
 		}
 	}
 	fn val(&self, out: &mut String, c: bool) {
@@ -1201,7 +1201,7 @@ pub struct UsesPercent {
 }
 impl Modeled for SharedNode {
 	fn ty(d: usize) -> String {
-		format!("box 0 {}", UNode::ty(d))
+		format!("wrap {}", UNode::ty(d))
 	}
 	fn val(&self, out: &mut String, c: bool) {
 		self.0.val(out, c)
